@@ -364,27 +364,57 @@ func (w *c17Worker) runWatch(res *runner.CaseResult, idx int) {
 		// the tick is taken at the CALL: the server publishes while it handles the request,
 		// so the notification may overtake the response
 		tp := tick.Add(1)
-		if err := r.Sync(ctx, false); err != nil {
-			res.Violate("request-failed", "sync: "+err.Error(), "", replay)
+		// every way a change reaches the server: a sync, a push-only sync, inside the
+		// Detach request (edit, then detach without a sync in between), and - after the
+		// detach - the initial presence inside the next Attach request
+		how := []string{"sync", "sync", "sync", "sync", "push-only sync", "push-only sync", "detach", "detach"}[rng.Intn(8)]
+		var err error
+		switch how {
+		case "sync":
+			err = r.Sync(ctx, false)
+		case "push-only sync":
+			err = r.Sync(ctx, true)
+		case "detach":
+			err = r.Detach(ctx)
+		}
+		if err != nil {
+			res.Violate("request-failed", how+": "+err.Error(), "", replay)
 			return
 		}
-		res.AddStat("watch_pushes_judged", 1)
-		ok := false
-		for try := 0; try < 100 && !ok; try++ {
-			mu.Lock()
-			for _, t := range got[r.ID.String()] {
-				if t > tp {
-					ok = true
+		res.AddSet("watch_push_kinds", how)
+		expect := func(what string, tp int64) bool {
+			res.AddStat("watch_pushes_judged", 1)
+			ok := false
+			for try := 0; try < 100 && !ok; try++ {
+				mu.Lock()
+				for _, t := range got[r.ID.String()] {
+					if t > tp {
+						ok = true
+					}
+				}
+				mu.Unlock()
+				if !ok {
+					gotime.Sleep(50 * gotime.Millisecond)
 				}
 			}
-			mu.Unlock()
 			if !ok {
-				gotime.Sleep(50 * gotime.Millisecond)
+				res.Violate("watcher-not-notified", fmt.Sprintf("push %d of %s (%s, called at tick %d) was accepted; the watcher's stream delivered no DOCUMENT_CHANGED of that client after the call within 5 s (ticks of that publisher's events: %v)", k, r.Name, what, tp, got[r.ID.String()]), "", replay)
 			}
+			return ok
 		}
-		if !ok {
-			res.Violate("watcher-not-notified", fmt.Sprintf("push %d of %s (called at tick %d) was accepted; the watcher's stream delivered no DOCUMENT_CHANGED of that client after the call within 5 s (ticks of that publisher's events: %v)", k, r.Name, tp, got[r.ID.String()]), "", replay)
+		if !expect("an edit pushed by a "+how, tp) {
 			return
+		}
+		if how == "detach" {
+			ta := tick.Add(1)
+			if err := r.Attach(ctx, dk, replica.AttachOpts{Presence: map[string]string{"n": r.Name}}); err != nil {
+				res.Violate("request-failed", "re-attach: "+err.Error(), "", replay)
+				return
+			}
+			res.AddSet("watch_push_kinds", "attach")
+			if !expect("the initial presence pushed by an attach", ta) {
+				return
+			}
 		}
 		gotime.Sleep(gotime.Duration(rng.Intn(250)) * gotime.Millisecond)
 	}
